@@ -23,9 +23,10 @@ chk = Check('C03', 'exploration',
             'sparse systems: every pair of the 7^3 (thorough 11^3 for the first cell) per-axis coordinate menu '
             '{low face, 0.3c, 0.95c, L/2, L-0.6c, L-0.005c (sliver), high face} whose reference distance is < 1.5c '
             '(quick; plus every 10th far pair; thorough: all pairs), every triple of a 3^3 sub-grid, in 6+ cells x origins x all 8 pbc; '
+            'exact-ties: all pairs/triples of 9 integer/dyadic points in power-of-two orthogonal cells with the cutoff set exactly to representable pair distances (Fraction oracle, strict <); '
             'small cells with cutoff > L/2 and > L; a dense family (45-60 atoms in one bin); storage sizes (1,1),(2,3),(20,10); '
             'a case is one neighbor-list build; non-trivial = the reference has at least one neighbor pair through a periodic image')
-chk.assumptions = ['pairs whose reference distance is within 1e-9 of the cutoff are exempt (counted)',
+chk.assumptions = ['pairs whose reference distance is within 1e-9 of the cutoff are exempt (counted) except in the exact-ties clause, whose arithmetic is certified exact with Fractions',
                    'periodic distance = shortest of the 27 (pbc-restricted) image candidates, as C02 defines it']
 
 C = 1.0
@@ -361,6 +362,72 @@ def single_and_class(case):
     return fails
 
 
+
+# ---------------------------------------------------------------------------
+# exact boundary semantics: "below the cutoff" is strict.  All coordinates, cell edges and cutoffs are small
+# integers or dyadic rationals, so every squared distance (direct or through an image) and cutoff*cutoff are
+# exact in binary floating point; the expectation is computed with Fractions.  Every pair of a small integer
+# point set is enumerated with the cutoff set EXACTLY to each distinct pair distance that is itself exactly
+# representable (Pythagorean: 1, 2, 3, 4, 5 = |(3,4,0)|, 2.5 = |(1.5,2,0)|, ...), so ties at the cutoff sphere occur
+# by construction (they are exempt everywhere else).
+from fractions import Fraction as _Fr
+
+TIE_CELLS = [np.diag([8.0, 8.0, 8.0]), np.diag([8.0, 16.0, 4.0])]
+TIE_POINTS = np.array([[0, 0, 0], [3, 4, 0], [3, 0, 0], [0, 0, 2], [7, 0, 0], [1.5, 2, 0], [4, 4, 2], [0, 7, 3], [6, 0, 2]], float)
+TIE_CUTS = [1.0, 2.0, 2.5, 3.0, 4.0, 5.0, 6.0]
+
+
+def _exact_d2(pi, pj, v, pbc):
+    best = None
+    for im in IMAGES:
+        if any(im[k] != 0 and not pbc[k] for k in range(3)):
+            continue
+        d = [_Fr(float(pj[k])) - _Fr(float(pi[k])) + sum(_Fr(int(im[m])) * _Fr(float(v[m, k])) for m in range(3)) for k in range(3)]
+        d2 = sum(x * x for x in d)
+        if best is None or d2 < best:
+            best = d2
+    return best
+
+
+@chk.clause('exact-ties')
+def exact_ties(case):
+    v = TIE_CELLS[case['cell']]
+    pbc = PBCS[case['pbc']]
+    o = np.array([0.0, 0.0, 0.0]) if case['origin'] == 0 else np.array([-2.0, 0.5, 16.0])
+    cut = TIE_CUTS[case['cut']]
+    fails = []
+    n = len(TIE_POINTS)
+    # all subsets of size 2 and 3 containing point a
+    a = case['a']
+    subsets = [(a, b) for b in range(n) if b > a] + [(a, b, c) for b in range(n) if b > a for c in range(n) if c > b]
+    for sub in subsets:
+        pos = TIE_POINTS[list(sub)]
+        inside = np.all((pos >= 0) & (pos <= np.diag(v)), axis=1).all()
+        if not inside:
+            continue
+        exp = [[] for _ in sub]
+        ties = 0
+        for i in range(len(sub)):
+            for j in range(i + 1, len(sub)):
+                d2 = _exact_d2(pos[i], pos[j], v, pbc)
+                if d2 == _Fr(cut) * _Fr(cut):
+                    ties += 1
+                if d2 < _Fr(cut) * _Fr(cut):
+                    exp[i].append(j)
+                    exp[j].append(i)
+        system = am.System(atoms=am.Atoms(pos=pos + o), box=am.Box(vects=v, origin=o), pbc=pbc)
+        chk.note('builds')
+        chk.note('exact-tie-systems', 1 if ties else 0)
+        f = compare(nlist(system, cut, 2, 3), exp, 'tie-')
+        if f:
+            for x in f:
+                x['positions'] = pos.tolist()
+                x['cutoff'] = cut
+                x['pairs_exactly_at_cutoff'] = ties
+            fails += f
+            break
+    return fails
+
 def gen():
     ncell = len(CELLS)
     quick_pairs = {(0, 0), (0, 1), (4, 0)}       # quick: (cell, origin) combinations for the pair sweep
@@ -385,6 +452,12 @@ def gen():
             for pi in range(len(PBCS)):
                 for a in range(len(SMALL_GRID) ** 3):
                     yield 'small-cells', {'cell': ci, 'origin': oi, 'pbc': pi, 'a': a}
+    for ci in range(len(TIE_CELLS)):
+        for oi in (0, 1):
+            for pi in range(len(PBCS)):
+                for cu in range(len(TIE_CUTS)):
+                    for a in range(len(TIE_POINTS) - 1):
+                        yield 'exact-ties', {'cell': ci, 'origin': oi, 'pbc': pi, 'cut': cu, 'a': a}
     for ci in (0, 1):
         for oi in range(len(ORIGINS)):
             for pi in (0, 7, 5):
